@@ -13,7 +13,7 @@ func NewExec() func([]string) string { return c05.NewExec() }
 
 func Run(r *hk.Run) {
 	r.Res.Rule = "distinct (blob set, final row dump) pairs; after every arrival of every schedule the live answers are compared with a reload"
-	maxPerm, extra, nRandom := 4, 2, 8
+	maxPerm, extra, nRandom := 5, 2, 8
 	if r.Thorough() {
 		maxPerm, extra, nRandom = 5, 4, 36
 	}
